@@ -91,7 +91,7 @@ def _worker(job):
             "z3q": solve.STATS["z3_queries"], "z3_confirmed": ctx.z3_confirmed, "bounded": ctx.bounded,
             "wall": time.time() - t0, "error": err, "rewritten": getattr(ctx, "rewritten", []), "cov": sorted(_COV),
             "generic_done": getattr(ctx, "generic_done", []), "generic_skipped": getattr(ctx, "generic_skipped", []),
-            "gprims": dict(_gen_prims()), "gconf": getattr(ctx, "gconf", None)}
+            "gprims": dict(_gen_prims()), "gconf": getattr(ctx, "gconf", None), "canary_na": getattr(ctx, "canary_na", False)}
 
 
 def _child(job, conn):
@@ -187,7 +187,7 @@ def run_check(prop, tier, seed, jobs=None):
     viol = [o for o in obls if o["status"] == "violated"]
     und = [o for o in obls if o["status"] == "undecided"]
     # canaries: every canary run must contain at least one violated obligation
-    dead = [r for r in can if not any(o["status"] == "violated" for o in r["obls"]) and not r["error"]]
+    dead = [r for r in can if not any(o["status"] == "violated" for o in r["obls"]) and not r["error"] and not r.get("canary_na")]
     # replay every violation natively
     lines = []
     known = load_known()
